@@ -61,6 +61,7 @@ type Stats struct {
 	Samples     [][]string     `json:"-"`
 	Checks      int            `json:"state_checks"`
 	CapHit      string         `json:"cap_hit,omitempty"`
+	ObsCount    map[string]int `json:"observable_counts,omitempty"`
 }
 
 type node struct {
@@ -69,7 +70,7 @@ type node struct {
 
 // Explore runs the BFS. Violations are reported to r; harness errors too.
 func Explore(r *vk.Run, cfg Config) *Stats {
-	st := &Stats{Name: cfg.Name, OpOK: map[string]int{}, OpFail: map[string]int{}}
+	st := &Stats{Name: cfg.Name, OpOK: map[string]int{}, OpFail: map[string]int{}, ObsCount: map[string]int{}}
 	if cfg.Workers <= 0 {
 		cfg.Workers = 16
 	}
@@ -226,6 +227,9 @@ func expand(r *vk.Run, cfg Config, slot int, n node, mu *sync.Mutex, seen, obs m
 			c := s.Canon()
 			mu.Lock()
 			obs[opKind(op)+"="+o] = true
+			if len(st.ObsCount) < 60 || st.ObsCount[opKind(op)+"="+o] > 0 {
+				st.ObsCount[opKind(op)+"="+o]++
+			}
 			if strings.HasPrefix(o, "err") || strings.HasPrefix(o, "refused") {
 				st.OpFail[opKind(op)]++
 			} else {
